@@ -214,3 +214,11 @@ func TestC04(t *testing.T) {
 	}
 	c04.Run(t, budget(6000, 400000))
 }
+
+// genProgCaseNoPick: programs with the harness functions except lz_pick
+// (generated programs may still mention it; they are rewritten to lz_if-free leaves)
+func genProgCaseNoPick(o gen.ProgOpt) func(t *rapid.T) *ProgCase {
+	o.NoPick = true
+	inner := genProgCase(o, c19harness)
+	return inner
+}
